@@ -54,6 +54,13 @@ pub fn lg_paddr(i: usize) -> u64 {
     unsafe { LG_SALT + (i as u64) * 0x1_0000 }
 }
 
+/// concrete device-address base (driver-level harnesses: the reference device translates addresses often)
+pub fn lg_init_concrete() {
+    unsafe {
+        LG_SALT = 0x4000_0000;
+        LG_N = 0;
+    }
+}
 pub fn lg_init() {
     let salt: u64 = kani::any();
     kani::assume(salt >= 0x1000_0000 && salt < (1u64 << 44) && salt % 0x1000 == 0);
@@ -98,10 +105,13 @@ unsafe impl Hal for LHal {
     }
 }
 
+/// pointer-typed copy of the shared ranges, used only by the reference devices of driver-level harnesses
+pub static mut LGP: [*mut u8; MAXSH] = [core::ptr::null_mut(); MAXSH];
 pub unsafe fn lg_share(b: NonNull<[u8]>, d: BufferDirection, ap: bool) -> PhysAddr {
     let i = LG_N;
     assert!(i < MAXSH, "harness: share ledger full");
     assert!(dir_code(d) != 2, "C04: buffer shared with direction Both");
+    LGP[i] = b.as_ptr() as *mut u8;
     LG[i] = Sh { ptr: b.as_ptr() as *mut u8 as usize, len: b.len(), dir: dir_code(d), ap, live: true, unshares: 0 };
     LG_N = i + 1;
     lg_paddr(i)
@@ -121,7 +131,12 @@ pub unsafe fn lg_unshare(p: PhysAddr, b: NonNull<[u8]>, d: BufferDirection, ap: 
 pub fn lg_dev_ptr(p: u64) -> *mut u8 {
     let f = lg_find_live(p);
     assert!(f.is_some(), "C04: device was given an address that is not a live share");
-    unsafe { LG[f.unwrap()].ptr as *mut u8 }
+    unsafe { LGP[f.unwrap()] }
+}
+pub fn lg_dev_dir(p: u64) -> u8 {
+    let f = lg_find_live(p);
+    assert!(f.is_some(), "C04: device was given an address that is not a live share");
+    unsafe { LG[f.unwrap()].dir }
 }
 pub fn lg_dev_len(p: u64) -> usize {
     let f = lg_find_live(p);
@@ -976,3 +991,300 @@ impl Transport for NT {
     fn read_config_space<T: FromBytes + IntoBytes>(&self, _o: usize) -> crate::Result<T> { Err(Error::ConfigSpaceMissing) }
     fn write_config_space<T: IntoBytes + Immutable>(&mut self, _o: usize, _v: T) -> crate::Result<()> { Err(Error::ConfigSpaceMissing) }
 }
+
+
+// ------------------------------------------------------------------------------------------------
+// Model transport + reference-device plumbing for driver-level harnesses
+pub trait DevModel {
+    /// the device reacts to an available-buffer notification on `queue`
+    fn on_notify(queue: u16);
+}
+pub struct NoDev;
+impl DevModel for NoDev {
+    fn on_notify(_q: u16) {}
+}
+
+pub const MAXQ: usize = 4;
+#[derive(Clone, Copy)]
+pub struct QInfo {
+    pub d2d: *mut u8,
+    pub d2h: *mut u8,
+    pub size: u32,
+    pub last: u16,
+    pub set: bool,
+    pub sets: u8,
+}
+pub const Q0: QInfo = QInfo { d2d: core::ptr::null_mut(), d2h: core::ptr::null_mut(), size: 0, last: 0, set: false, sets: 0 };
+pub static mut QS: [QInfo; MAXQ] = [Q0; MAXQ];
+pub static mut DRIVER_OK_SEEN: bool = false;
+pub static mut NOTIFY_BEFORE_OK: bool = false;
+
+/// Transport whose every call is logged, with symbolic offered features, configuration bytes and
+/// queue-size limit; it resets the device when dropped, exactly like MmioTransport / PciTransport.
+pub struct MT<D: DevModel> {
+    pub dtype: DeviceType,
+    pub offered: u64,
+    pub written: u64,
+    pub status: u32,
+    pub max_q: u32,
+    pub cfg: [u8; 64],
+    pub cfg_len: usize,
+    pub generation: u32,
+    pub isr: u32,
+    pub _d: core::marker::PhantomData<D>,
+}
+pub fn mt<D: DevModel>(dtype: DeviceType, offered: u64) -> MT<D> {
+    MT { dtype, offered, written: 0, status: 0, max_q: 0x8000, cfg: [0; 64], cfg_len: 64, generation: 0, isr: 0, _d: core::marker::PhantomData }
+}
+impl<D: DevModel> Drop for MT<D> {
+    fn drop(&mut self) {
+        ev_push(EV_RESET_ON_DROP, 0);
+    }
+}
+impl<D: DevModel> Transport for MT<D> {
+    fn device_type(&self) -> DeviceType { self.dtype }
+    fn read_device_features(&mut self) -> u64 {
+        ev_push(EV_READ_FEATURES, 0);
+        self.offered
+    }
+    fn write_driver_features(&mut self, f: u64) {
+        ev_push(EV_WRITE_FEATURES, f);
+        self.written = f;
+    }
+    fn max_queue_size(&mut self, _q: u16) -> u32 { self.max_q }
+    fn notify(&mut self, q: u16) {
+        ev_push(EV_NOTIFY, q as u64);
+        unsafe {
+            if !DRIVER_OK_SEEN { NOTIFY_BEFORE_OK = true; }
+        }
+        D::on_notify(q);
+    }
+    fn get_status(&self) -> DeviceStatus { DeviceStatus::from_bits_retain(self.status) }
+    fn set_status(&mut self, s: DeviceStatus) {
+        ev_push(EV_SET_STATUS, s.bits() as u64);
+        if s.bits() & 4 != 0 { unsafe { DRIVER_OK_SEEN = true; } }
+        if s.bits() == 0 { unsafe { DRIVER_OK_SEEN = false; } }
+        self.status = s.bits();
+    }
+    fn set_guest_page_size(&mut self, _g: u32) { ev_push(EV_GUEST_PAGE_SIZE, 0); }
+    fn requires_legacy_layout(&self) -> bool { false }
+    fn queue_set(&mut self, q: u16, size: u32, d: PhysAddr, a: PhysAddr, u: PhysAddr) {
+        ev_push(EV_QUEUE_SET, q as u64);
+        assert!((q as usize) < MAXQ, "harness: queue index beyond the model");
+        let (di, ui) = (dma_index(d), dma_index(u));
+        assert!(di.is_some() && ui.is_some(), "C04: queue registered at addresses that did not come from dma_alloc");
+        unsafe {
+            let (di, ui) = (di.unwrap(), ui.unwrap());
+            assert!(DMA[di].live && DMA[ui].live && DMA[di].dir != D2H && DMA[ui].dir != D2D, "C06: queue areas registered in DMA memory of the wrong direction");
+            assert!(a == d + 16 * size as u64, "C06: driver area does not follow the descriptor table");
+            QS[q as usize] = QInfo { d2d: DMA[di].vaddr, d2h: DMA[ui].vaddr, size, last: 0, set: true, sets: QS[q as usize].sets + 1 };
+        }
+    }
+    fn queue_unset(&mut self, q: u16) {
+        ev_push(EV_QUEUE_UNSET, q as u64);
+        unsafe { if (q as usize) < MAXQ { QS[q as usize].set = false; } }
+    }
+    fn queue_used(&mut self, q: u16) -> bool { unsafe { (q as usize) < MAXQ && QS[q as usize].set } }
+    fn ack_interrupt(&mut self) -> InterruptStatus { InterruptStatus::from_bits_truncate(self.isr) }
+    fn read_config_generation(&self) -> u32 { self.generation }
+    fn read_config_space<T: FromBytes + IntoBytes>(&self, o: usize) -> crate::Result<T> {
+        let n = core::mem::size_of::<T>();
+        if self.cfg_len == 0 { return Err(Error::ConfigSpaceMissing); }
+        if o + n > self.cfg_len { return Err(Error::ConfigSpaceTooSmall); }
+        assert!(n <= 8 && o + n <= 64, "harness: config model range");
+        let mut b = [0u8; 8];
+        let mut i = 0;
+        while i < 8 {
+            if i < n { b[i] = self.cfg[o + i]; }
+            i += 1;
+        }
+        Ok(T::read_from_bytes(&b[..n]).unwrap())
+    }
+    fn write_config_space<T: IntoBytes + Immutable>(&mut self, _o: usize, _v: T) -> crate::Result<()> { Ok(()) }
+}
+
+// ---- device-side view of a queue (specification-following device; every check it makes is the C01 oracle) ----
+pub const MAXCHAIN: usize = 6;
+pub struct Chain {
+    pub n: usize,
+    pub ptr: [*mut u8; MAXCHAIN],
+    pub addr: [u64; MAXCHAIN],
+    pub len: [u32; MAXCHAIN],
+    pub write: [bool; MAXCHAIN],
+    pub indirect: bool,
+}
+/// next available chain head on queue q, if the driver has published one the device has not taken yet
+pub fn dev_take<const N: usize>(q: usize) -> Option<u16> {
+    unsafe {
+        assert!(QS[q].set && QS[q].size as usize == N, "C08: device asked to serve a queue that is not configured");
+        let m = &*(QS[q].d2d as *const D2DMem<N>);
+        let aidx = m.avail.idx.load(Ordering::Acquire);
+        if aidx == QS[q].last { return None; }
+        Some(m.avail.ring[(QS[q].last as usize) & (N - 1)])
+    }
+}
+/// walk the chain starting at `head` exactly as a device would, validating it against the specification
+pub fn dev_chain<const N: usize>(q: usize, head: u16, indirect_negotiated: bool) -> Chain {
+    let mut c = Chain { n: 0, ptr: [core::ptr::null_mut(); MAXCHAIN], addr: [0; MAXCHAIN], len: [0; MAXCHAIN], write: [false; MAXCHAIN], indirect: false };
+    unsafe {
+        let m = &*(QS[q].d2d as *const D2DMem<N>);
+        assert!((head as usize) < N, "C01: head index out of range");
+        let d0 = dv(&m.desc[head as usize]);
+        if d0.flags & 4 != 0 {
+            assert!(indirect_negotiated, "C08: INDIRECT descriptor although the feature was not negotiated");
+            assert!(d0.flags == 4, "C01: indirect descriptor with other flags");
+            assert!(d0.len % 16 == 0 && d0.len >= 16, "C01: indirect table length");
+            let n = (d0.len / 16) as usize;
+            assert!(n <= MAXCHAIN, "harness: chain longer than the model");
+            assert!(lg_dev_len(d0.addr) == d0.len as usize && lg_dev_dir(d0.addr) == D2D, "C04: indirect table share");
+            let tp = lg_dev_ptr(d0.addr) as *const Descriptor;
+            c.indirect = true;
+            let mut i = 0;
+            while i < MAXCHAIN {
+                if i < n {
+                    let t = dv(&*tp.add(i));
+                    assert!(t.flags & 4 == 0, "C01: nested indirect descriptor");
+                    assert!((t.flags & 1 != 0) == (i + 1 < n), "C01: NEXT flag in indirect table");
+                    if i + 1 < n { assert!(t.next as usize == i + 1, "C01: indirect table not chained in order"); }
+                    c.addr[i] = t.addr;
+                    c.len[i] = t.len;
+                    c.write[i] = t.flags & 2 != 0;
+                }
+                i += 1;
+            }
+            c.n = n;
+        } else {
+            let mut cur = head as usize;
+            let mut seen = [false; N];
+            let mut i = 0;
+            let mut done = false;
+            while i < MAXCHAIN {
+                if !done {
+                    assert!(cur < N, "C01: descriptor index out of range");
+                    assert!(!seen[cur], "C01: descriptor chain is cyclic");
+                    seen[cur] = true;
+                    let d = dv(&m.desc[cur]);
+                    assert!(d.flags & 4 == 0, "C01: INDIRECT inside a direct chain");
+                    c.addr[i] = d.addr;
+                    c.len[i] = d.len;
+                    c.write[i] = d.flags & 2 != 0;
+                    c.n = i + 1;
+                    if d.flags & 1 != 0 { cur = d.next as usize; } else { done = true; }
+                }
+                i += 1;
+            }
+            assert!(done, "harness: chain longer than the model");
+        }
+        // readable before writable; every element is a live share of the right direction and length
+        let mut i = 0;
+        let mut seen_w = false;
+        while i < MAXCHAIN {
+            if i < c.n {
+                if c.write[i] { seen_w = true; } else { assert!(!seen_w, "C01: device-readable descriptor after a device-writable one"); }
+                let f = lg_find_live(c.addr[i]);
+                assert!(f.is_some(), "C04: device was given an address that is not a live share");
+                let e = f.unwrap();
+                assert!(LG[e].dir == if c.write[i] { D2H } else { D2D }, "C04: buffer direction does not match the descriptor");
+                assert!(LG[e].len == c.len[i] as usize, "C01: descriptor length differs from the shared buffer");
+                c.ptr[i] = LGP[e];
+            }
+            i += 1;
+        }
+    }
+    c
+}
+/// the device marks `head` used with `len` written bytes
+pub fn dev_complete<const N: usize>(q: usize, head: u16, len: u32) {
+    unsafe {
+        let m = &mut *(QS[q].d2h as *mut D2HMem<N>);
+        let slot = (QS[q].last as usize) & (N - 1);
+        m.used.ring[slot] = UsedElem { id: head as u32, len };
+        QS[q].last = QS[q].last.wrapping_add(1);
+        m.used.idx.store(QS[q].last, Ordering::Release);
+    }
+}
+/// device writes used element without consuming the next avail entry (out-of-order completion of `head`)
+pub fn dev_complete_at<const N: usize>(q: usize, used_pos: u16, head: u16, len: u32) {
+    unsafe {
+        let m = &mut *(QS[q].d2h as *mut D2HMem<N>);
+        m.used.ring[(used_pos as usize) & (N - 1)] = UsedElem { id: head as u32, len };
+    }
+}
+pub fn dev_set_used_idx<const N: usize>(q: usize, idx: u16) {
+    unsafe {
+        let m = &mut *(QS[q].d2h as *mut D2HMem<N>);
+        m.used.idx.store(idx, Ordering::Release);
+    }
+}
+pub fn dev_avail_idx<const N: usize>(q: usize) -> u16 {
+    unsafe { (&*(QS[q].d2d as *const D2DMem<N>)).avail.idx.load(Ordering::Acquire) }
+}
+pub fn dev_avail_slot<const N: usize>(q: usize, pos: u16) -> u16 {
+    unsafe { (&*(QS[q].d2d as *const D2DMem<N>)).avail.ring[(pos as usize) & (N - 1)] }
+}
+pub fn dev_used_event<const N: usize>(q: usize) -> u16 {
+    unsafe { (&*(QS[q].d2d as *const D2DMem<N>)).avail.used_event.load(Ordering::Acquire) }
+}
+pub unsafe fn dev_rd(c: &Chain, i: usize, off: usize) -> u8 {
+    assert!(i < c.n && off < c.len[i] as usize, "C01: device read beyond the buffer it was given");
+    *c.ptr[i].add(off)
+}
+pub unsafe fn dev_wr(c: &Chain, i: usize, off: usize, v: u8) {
+    assert!(i < c.n && c.write[i] && off < c.len[i] as usize, "C01: device write beyond the buffer it was given / to a read-only part");
+    *c.ptr[i].add(off) = v;
+}
+pub unsafe fn dev_rd_u16(c: &Chain, i: usize, off: usize) -> u16 {
+    u16::from_le_bytes([dev_rd(c, i, off), dev_rd(c, i, off + 1)])
+}
+pub unsafe fn dev_rd_u32(c: &Chain, i: usize, off: usize) -> u32 {
+    u32::from_le_bytes([dev_rd(c, i, off), dev_rd(c, i, off + 1), dev_rd(c, i, off + 2), dev_rd(c, i, off + 3)])
+}
+pub unsafe fn dev_rd_u64(c: &Chain, i: usize, off: usize) -> u64 {
+    (dev_rd_u32(c, i, off) as u64) | ((dev_rd_u32(c, i, off + 4) as u64) << 32)
+}
+pub unsafe fn dev_wr_u32(c: &Chain, i: usize, off: usize, v: u32) {
+    let b = v.to_le_bytes();
+    dev_wr(c, i, off, b[0]);
+    dev_wr(c, i, off + 1, b[1]);
+    dev_wr(c, i, off + 2, b[2]);
+    dev_wr(c, i, off + 3, b[3]);
+}
+
+/// the handshake order every driver's new() must produce (C08); returns the negotiated feature word
+pub fn check_handshake(offered: u64, supported: u64, nqueues: usize) -> u64 {
+    unsafe {
+        assert!(EV_N >= 6, "C08: handshake too short");
+        assert!(EVK[0] == EV_SET_STATUS && EVA[0] == 0, "C08: construction must start by resetting the device (status 0)");
+        assert!(EVK[1] == EV_SET_STATUS && EVA[1] == 3, "C08: ACKNOWLEDGE|DRIVER must be set after the reset");
+        assert!(EVK[2] == EV_READ_FEATURES, "C08: device features must be read after ACKNOWLEDGE|DRIVER");
+        assert!(EVK[3] == EV_WRITE_FEATURES, "C08: driver features must be written after reading the offered ones");
+        let w = EVA[3];
+        assert!(w & !offered == 0, "C08: accepted a feature the device did not offer");
+        assert!(w == offered & supported, "C08: negotiated features must be exactly offered AND supported");
+        if offered & (1 << 32) != 0 { assert!(w & (1 << 32) != 0, "C08: VERSION_1 offered but not accepted"); }
+        assert!(EVK[4] == EV_SET_STATUS && EVA[4] == 11, "C08: FEATURES_OK must be set after writing the features");
+        let ok = ev_find(EV_SET_STATUS, Some(15), 5);
+        assert!(ok.is_some(), "C08: DRIVER_OK never set");
+        let ok = ok.unwrap();
+        assert!(ev_count(EV_QUEUE_SET) == nqueues, "C08: number of configured queues");
+        let mut i = 0;
+        while i < MAXEV {
+            if i < EV_N {
+                if EVK[i] == EV_QUEUE_SET { assert!(i > 4 && i < ok, "C08: queues must be configured after FEATURES_OK and before DRIVER_OK"); }
+                if EVK[i] == EV_NOTIFY { assert!(i > ok, "C08: available-buffer notification sent before DRIVER_OK"); }
+                if EVK[i] == EV_SET_STATUS && i > ok { assert!(false, "C08: status written again after DRIVER_OK during construction"); }
+            }
+            i += 1;
+        }
+        w
+    }
+}
+
+// accessors for harness modules outside crate::queue
+pub fn q_flags<H: Hal, const N: usize>(q: &VirtQueue<H, N>) -> (bool, bool, bool) {
+    (q.indirect, q.event_idx, q.access_platform)
+}
+pub fn q_num_used<H: Hal, const N: usize>(q: &VirtQueue<H, N>) -> u16 { q.num_used }
+pub fn q_last_used<H: Hal, const N: usize>(q: &VirtQueue<H, N>) -> u16 { q.last_used_idx }
+pub fn q_avail_idx<H: Hal, const N: usize>(q: &VirtQueue<H, N>) -> u16 { q.avail_idx }
+pub fn q_index<H: Hal, const N: usize>(q: &VirtQueue<H, N>) -> u16 { q.queue_idx }
